@@ -1,14 +1,12 @@
-SPECIFICATION TraceSpec
+SPECIFICATION Spec
 CONSTANTS
   Names = {"a", "b"}
   Values = {"v1", "v2"}
   WithEmpty = FALSE
-  MaxPathLen = 4
+  MaxPathLen = 3
   ModelKinds = {"timeout"}
-  ChainLen = 3
-  Changes = {}
+  ChainLen = 2
+  Changes = {"set", "unset", "replace"}
 INVARIANTS TypeOK DirectMatch LevelByLevel FromLongestPrefix OthersIrrelevant EmptyNeverUsed
 PROPERTIES RepeatSame ChangeRespected CurrentTreeOnly
-CONSTRAINT HWM
-POSTCONDITION TraceAccepted
 CHECK_DEADLOCK FALSE
